@@ -66,7 +66,7 @@ def impl(case):
         convolve_model_dir(d, pkgcase.make_filters(pkg))
         conv = {n: pkgcase.read_convolved(d, n) for n in names}
         ext = fitcase.make_extinction(case['ext'])
-        wavs = np.array([conv[n]['filtwav'] for n in names]) * u.micron
+        wavs = np.array([f['wav'] for f in pkg['filters']]) * u.micron       # the filters' own central wavelengths (not what the convolved files say)
         ks = np.asarray(ext.get_av(wavs))
         d0s = []
 
@@ -144,7 +144,7 @@ def model_requests(case, im):
     vals = [float(x) for x in d[6:]]
     raws = [[flags[j], F(vals[2 * j]), F(vals[2 * j + 1])] for j in range(3)]
     ext = fitcase.ext_tab(case['ext'])
-    wavs = [F(w) for w in im['filtwav']]
+    wavs = [F(f['wav']) for f in pkg['filters']]
     lo, hi = F(case['av_range'][0]), F(case['av_range'][1])
     nm = len(pkg['par_order'])
     if case['mode'] == '2d':
@@ -167,7 +167,7 @@ def judge(case, im, mo):
     m = mo[0]
     # conditioning of the regression at the filter wavelengths
     import c01
-    _, _, cond = c01.conditioning(dict(src=dict(flags=[1, 1, 1], flux=[1.0, 1.0, 1.0], err=[0.1, 0.1, 0.1]), ext=case['ext'], wav=im['filtwav']))
+    _, _, cond = c01.conditioning(dict(src=dict(flags=[1, 1, 1], flux=[1.0, 1.0, 1.0], err=[0.1, 0.1, 0.1]), ext=case['ext'], wav=[f['wav'] for f in pkg['filters']]))
     if case['mode'] == '2d' and cond > 1e5:
         return dict(disagree=[], fail=[], nontrivial=False, tags=tags + ['ill-conditioned-skipped'])
     if len(rec['chi2']) > 1 and rec['chi2'][1] <= 1e-6:
